@@ -261,6 +261,16 @@ func (r *Report) Finish(minDistinct int) int {
 	for _, k := range keys {
 		fmt.Printf("[%s]   %s = %d\n", r.ID, k, cnt[k])
 	}
+	seenWhy := map[string]bool{}
+	for _, w := range r.inconcl {
+		if len(seenWhy) >= 3 {
+			break
+		}
+		if !seenWhy[w] {
+			seenWhy[w] = true
+			fmt.Printf("[%s]   inconclusive: %s\n", r.ID, strings.ReplaceAll(trunc(w, 300), "\n", " | "))
+		}
+	}
 	for _, v := range r.known {
 		fmt.Printf("KNOWN-FINDING: property=%s %s (%s)\n", r.ID, v.Key, v.Summary)
 	}
